@@ -88,7 +88,7 @@ Theorem C03_compiled_builtin_call_anywhere : forall Bf nm b e d s s' w,
   SpecS Bf (NCall (NName nm) [e]) d 0 s s' w.
 Proof.
   intros Bf nm b e d s s' w Hb Hp Hwf H.
-  apply (comp_stmt Bf (NCall (NName nm) [e])); [cbn [wstmt is_bcall]; rewrite Hb; exact Hp|reflexivity|exact Hwf|exact H].
+  apply (comp_stmt Bf (NCall (NName nm) [e])); [cbn [wstmt is_bcall]; exact Hp|reflexivity|exact Hwf|exact H].
 Qed.
 Print Assumptions C03_compiled_builtin_call_anywhere.
 
@@ -96,7 +96,8 @@ Print Assumptions C03_compiled_builtin_call_anywhere.
    (other code and data offsets, other allocation counters, other output, other stack contents), get the
    same result from the same call *)
 Theorem C03_compiled_builtin_call_any_history : forall Bf nm b e mc1 c1 m1 mc2 c2 m2 o1 o2 n W1' res,
-  bop_of_name nm = Some b -> pure e = true -> nobe e = true -> wfb (NCall (NName nm) [e]) = true ->
+  (forall f body, ft_body Bf f = Some body -> nobe Bf body = true) ->
+  bop_of_name nm = Some b -> pure e = true -> nobe Bf e = true -> wfb (NCall (NName nm) [e]) = true ->
   bready Bf mc1 c1 m1 -> bready Bf mc2 c2 m2 ->
   wrel Bf Bf o1 o2 (wof (mc_vm mc1)) (wof (mc_vm mc2)) ->
   ssem Bf n (wof (mc_vm mc1)) (NCall (NName nm) [e]) = Some (W1', res) ->
@@ -104,9 +105,57 @@ Theorem C03_compiled_builtin_call_any_history : forall Bf nm b e mc1 c1 m1 mc2 c
   (tree_agrees (snd (run_tree false mc1 (NCall (NName nm) [e]))) res /\
    tree_agrees (snd (run_tree false mc2 (NCall (NName nm) [e]))) res).
 Proof.
-  intros Bf nm b e mc1 c1 m1 mc2 c2 m2 o1 o2 n W1' res Hb Hp Hn Hwfb R1 R2 HR HM.
-  assert (Hw : wstmt (NCall (NName nm) [e]) = true) by (cbn [wstmt is_bcall]; rewrite Hb; exact Hp).
-  destruct (stmt_relocation Bf _ mc1 c1 m1 mc2 c2 m2 o1 o2 n W1' res R1 R2 Hw Hwfb Hn HR HM) as [S|[S|(A1 & A2 & _)]];
+  intros Bf nm b e mc1 c1 m1 mc2 c2 m2 o1 o2 n W1' res Hnob Hb Hp Hn Hwfb R1 R2 HR HM.
+  assert (Hw : wstmt (NCall (NName nm) [e]) = true) by (cbn [wstmt is_bcall]; exact Hp).
+  destruct (stmt_relocation Bf Hnob _ mc1 c1 m1 mc2 c2 m2 o1 o2 n W1' res R1 R2 Hw Hwfb Hn HR HM) as [S|[S|(A1 & A2 & _)]];
     [left; exact S|right; left; exact S|right; right; split; assumption].
 Qed.
 Print Assumptions C03_compiled_builtin_call_any_history.
+
+(* ---- user functions (one parameter, the body a pure expression of it and of the globals) ---- *)
+Require Import Calc.LExprSem.
+
+(* what the function returns depends on the argument value and the global data only *)
+Theorem C03_user_function_result : forall Bf n W nm e W' res,
+  bop_of_name nm = None ->
+  ssem Bf n W (NCall (NName nm) [e]) = Some (W', res) ->
+  exists body, ft_body Bf nm = Some body /\
+    match den (w_glob W) e with
+    | Ok x => res = lden [x] (w_glob W) body /\ w_glob W' = w_glob W /\ w_out W' = w_out W /\ w_in W' = w_in W
+    | Fail err => res = Fail err /\ W' = W
+    end.
+Proof.
+  intros Bf n W nm e W' res Hb H. apply (ssem_ucall Bf _ _ _ _ _ _ Hb) in H.
+  destruct H as (body & mo & fid & Hbody & _ & _ & _ & H). exists body. split; [exact Hbody|].
+  destruct (den (w_glob W) e) as [x|err]; [destruct H as (-> & -> & _)|destruct H as [-> ->]]; repeat split.
+Qed.
+Print Assumptions C03_user_function_result.
+
+(* the compiled call computes it from ANY machine state: any stack depth, any dead cells, growth or not *)
+Theorem C03_compiled_user_call_anywhere : forall Bf nm e d s s' w,
+  bop_of_name nm = None -> pure e = true -> wfcs s ->
+  Compile.comp (NCall (NName nm) [e]) 0 (tfl d) s = COk (w, s') ->
+  SpecS Bf (NCall (NName nm) [e]) d 0 s s' w.
+Proof.
+  intros Bf nm e d s s' w Hb Hp Hwf H.
+  apply (comp_stmt Bf (NCall (NName nm) [e])); [cbn [wstmt is_bcall]; exact Hp|reflexivity|exact Hwf|exact H].
+Qed.
+Print Assumptions C03_compiled_user_call_anywhere.
+
+(* two sessions with the same global data, whatever happened before in either, get the same result *)
+Theorem C03_compiled_user_call_any_history : forall Bf nm e mc1 c1 m1 mc2 c2 m2 o1 o2 n W1' res,
+  (forall f body, ft_body Bf f = Some body -> nobe Bf body = true) ->
+  pure e = true -> nobe Bf e = true -> wfb (NCall (NName nm) [e]) = true ->
+  bready Bf mc1 c1 m1 -> bready Bf mc2 c2 m2 ->
+  wrel Bf Bf o1 o2 (wof (mc_vm mc1)) (wof (mc_vm mc2)) ->
+  ssem Bf n (wof (mc_vm mc1)) (NCall (NName nm) [e]) = Some (W1', res) ->
+  stuck (snd (run_tree false mc1 (NCall (NName nm) [e]))) \/ stuck (snd (run_tree false mc2 (NCall (NName nm) [e]))) \/
+  (tree_agrees (snd (run_tree false mc1 (NCall (NName nm) [e]))) res /\
+   tree_agrees (snd (run_tree false mc2 (NCall (NName nm) [e]))) res).
+Proof.
+  intros Bf nm e mc1 c1 m1 mc2 c2 m2 o1 o2 n W1' res Hnob Hp Hn Hwfb R1 R2 HR HM.
+  assert (Hw : wstmt (NCall (NName nm) [e]) = true) by (cbn [wstmt is_bcall]; exact Hp).
+  destruct (stmt_relocation Bf Hnob _ mc1 c1 m1 mc2 c2 m2 o1 o2 n W1' res R1 R2 Hw Hwfb Hn HR HM) as [S|[S|(A1 & A2 & _)]];
+    [left; exact S|right; left; exact S|right; right; split; assumption].
+Qed.
+Print Assumptions C03_compiled_user_call_any_history.
